@@ -66,6 +66,12 @@ func GenPeerScenario(rng *rand.Rand, id int) *PeerScenario {
 	sc := &PeerScript{Master: rng.Intn(2) == 0, Sid: sidVariants[rng.Intn(len(sidVariants))], Answers: map[string]string{},
 		EarlyFQ: rng.Intn(5) == 0}
 	ps.Script = sc
+	if sc.Master && rng.Intn(3) == 0 {
+		// a secure login with auxiliary addresses, some with a password: every configured address must still be requested
+		sc.PQ = fmt.Sprintf("%08d", rng.Intn(100000000))
+		ps.Aux = []string{"LA9AUX", "LA8TAC-1", "N0AUX"}[:1+rng.Intn(3)]
+		ps.Secure = &SecureCfg{Password: "main-pw", AuxPw: map[string]string{"LA9AUX": "aux-pw-1", "LA8TAC-1": "", "N0AUX": []string{"", "aux-pw-3"}[rng.Intn(2)]}, Callback: "ok"}
+	}
 	switch rng.Intn(3) {
 	case 0:
 		sc.Fw = ";FW: LA2BBB"
@@ -150,6 +156,12 @@ func RunPeerScenario(ps *PeerScenario) ([]rec.Event, Result) {
 		master = "B"
 	}
 	r.Add(rec.Event{"op": "Session", "master": master, "fault": false})
+	// what the library station must announce in its ;FW line: its own call, then the auxiliary addresses, in order
+	expfw := []string{strings.ToUpper(mycall)}
+	for _, a := range ps.Aux {
+		expfw = append(expfw, strings.ToUpper(a))
+	}
+	r.Add(rec.Event{"op": "ExpectFw", "s": "A", "addrs": expfw})
 	var h fbb.MBoxHandler = lib
 	if ps.Batched {
 		h = Batched{lib}
